@@ -45,11 +45,21 @@ func c05Run(w *W) {
 	w.SetShape("kind", kind)
 	w.SetShape("pipes", npipes)
 	w.SetShape("ctxs", nctx)
-	const ttl = 8
+	// the hop limit: the default (8), or one the application set - requests
+	// come with backtraces up to that depth and their replies carry all of it
+	ttl := 8
 	mn := w.UseMsgNet()
 	addr := w.Addr("msg")
 	s := w.Sock(kind)
 	defer s.Close()
+	if t := []int{0, 0, 3, 9, 12, 40, 255}[w.Choose(simrt.SShape, 7)]; t > 0 {
+		mustSet(w, s, mangos.OptionTTL, t)
+		ttl = t
+		w.SetShape("ttl", t)
+		if t > 8 {
+			w.Probe("hop-limit-above-default")
+		}
+	}
 	mustSet(w, s, mangos.OptionRecvDeadline, 10*time.Millisecond)
 	mustSet(w, s, mangos.OptionSendDeadline, 10*time.Millisecond)
 	if err := s.Listen(addr); err != nil {
@@ -149,6 +159,12 @@ func c05Run(w *W) {
 			}
 			p := open[(a/4)%len(open)]
 			depth := []int{1, 1, 2, 3, ttl - 1, ttl}[w.Choose(simrt.SProg, 6)]
+			if depth < 1 {
+				depth = 1
+			}
+			if depth > ttl {
+				depth = ttl
+			}
 			var bt []byte
 			for j := 0; j < depth; j++ {
 				word := uint32(w.Choose(simrt.SProg, 1<<30)) & 0x7fffffff
